@@ -33,6 +33,8 @@ def known_decls():
     from . import absobj, layout, models
 
     out = {"ceil_div": z3.Function("ceil_div", z3.IntSort(), z3.IntSort(), z3.IntSort())}
+    for nm in ("K0", "K1", "K2", "K3", "rpc", "size_of_file_100", "size_of_file_101"):
+        out[nm] = z3.Int(nm).decl()  # canonical element indices and the unit parameters
     for mod in (ops, models, absobj, layout):
         for v in vars(mod).values():
             if isinstance(v, z3.FuncDeclRef):
